@@ -28,6 +28,7 @@ METHOD_POOL = [
     ["Base: s", "Alarm: In > 2 L/h", "    Mark: AL", "    Wait: 0.2s", "Forever", "Mark: X", ""],
     ["Base: s", "Macro: M", "    Mark: m1", "    Set1: 8", "Call macro: M", "Call macro: M", "Mark: E", ""],
     ["Base: s", "OvA", "OvB", "Long", "Long", "Mark: Z", ""],
+    ["Base: s", "OvC", "OvA", "Wait: 0.2s", "OvB", "OvC", "Mark: Z", ""],
     ["Base: s", "Simulate: In = 5 L/h", "Mark: S", "Wait: 0.3s", "Simulate off: In", "Mark: T", ""],
     ["Base: min", "0.01 Mark: late", "Set2: 3 L/h", ""],
 ]
@@ -217,9 +218,9 @@ def build(ctx: core.Ctx):
         for _ in range(urnd.randint(12, 35)):
             req, k = [], urnd.random()
             if k < 0.3:
-                req.append({"k": "control", "name": urnd.choice(["Short", "Long", "Long", "OvA", "OvB", "Forever"])})
+                req.append({"k": "control", "name": urnd.choice(["Short", "Long", "Long", "OvA", "OvB", "OvC", "Forever"])})
                 if urnd.random() < 0.25:
-                    req.append({"k": "control", "name": urnd.choice(["Long", "OvA", "OvB", "Forever"])})
+                    req.append({"k": "control", "name": urnd.choice(["Long", "OvA", "OvB", "OvC", "Forever"])})
             elif k < 0.36:
                 req.append({"k": "control", "name": urnd.choice(["Pause", "Unpause", "Hold", "Unhold"])})
             elif k < 0.40 and i % 2 == 1:
